@@ -330,32 +330,8 @@ def closed_forms(repo, rep):
                      f"with a depth given, {fi.name} must be 2 pi f^{fpow} / wavenuma(freq, depth) for EVERY depth: a deep-water shortcut (1.56/f) "
                      "inside the finite-depth branch breaks the linear dispersion relation by more than 0.1 % near depth = wavelength / 2",
                      anchor=f"finite-depth-form:{fi.name}")
-    # wavenuma: the polynomial loop covers the whole coefficient table
-    fi = repo.func("wavespectra.core.utils.wavenuma")
-    D = None
-    for n in ast.walk(fi.node):
-        if isinstance(n, ast.Assign) and isinstance(n.value, (ast.List, ast.Tuple)) and isinstance(n.targets[0], ast.Name):
-            D = (n.targets[0].id, len(n.value.elts), n)
-    if D is None:
-        # table hoisted into a module constant: E0 inlined it at its use,  (c0, c1, ..)[i]
-        for n in ast.walk(fi.node):
-            if isinstance(n, ast.Subscript) and isinstance(n.value, (ast.Tuple, ast.List)) and len(n.value.elts) >= 4:
-                D = ("<table>", len(n.value.elts), n)
-    loop = [n for n in ast.walk(fi.node) if isinstance(n, ast.For)]
-    if D is None or len(loop) != 1:
-        raise AnalysisError("wavenuma: coefficient table / loop not found")
-    it = loop[0].iter
-    hi = None
-    if isinstance(it, ast.Call) and call_name(it) == "range":
-        a = [repo.const(fi.module, x) for x in it.args]
-        hi = a[-1] if len(a) <= 2 else None
-        if isinstance(it.args[-1], ast.Call) and call_name(it.args[-1]) == "len" and unparse(it.args[-1].args[0]) == D[0]:
-            hi = D[1]
-    if hi == D[1]:
-        rep.ok("R-C01-5", f"{fi.file}:{loop[0].lineno} wavenuma", f"{unparse(it)} over {D[0]} with {D[1]} coefficients", "every term of the Chen-Thomson polynomial is summed")
-    else:
-        rep.fail("R-C01-5", fi.file, loop[0].lineno, fi.qualname, f"for ... in {unparse(it)}  ({D[0]} has {D[1]} coefficients)",
-                 "the polynomial loop does not cover the whole coefficient table: the wavenumber error exceeds 0.1 % in intermediate water")
+    from .shared import wavenumber_polynomial
+    wavenumber_polynomial(repo, rep, "R-C01-5")
 
 
 def run(repo, rep, tier):
@@ -387,26 +363,12 @@ def run(repo, rep, tier):
     rep.rule("R-C01-9", "(shared with C10) degenerate-case guards inside the integrated parameters compare scale-free quantities (or the result "
                         "itself): a guard on an energy-dependent quantity against an absolute constant returns a fill value instead of the "
                         "defining integral for low-energy spectra")
-    _Q, _ZERO = Q, Fr(0)
-    from .shared import RATIO_STATS
-    seen_ = set()
-    ncmp = 0
-    for fi_, node_, l_, r_, rnode_ in T.compares:
-        if fi_.cls is None or fi_.cls.name != "SpecArray" or fi_.name not in RATIO_STATS + ("hs", "hrms", "mss", "uss", "uss_x", "uss_y"):
-            continue
-        if (fi_.qualname, node_.lineno) in seen_ or not isinstance(l_, _Q) or not isinstance(r_, _Q):
-            continue
-        seen_.add((fi_.qualname, node_.lineno))
-        ncmp += 1
-        for a_, b_, bn_ in ((l_, r_, rnode_), (r_, l_, node_.left)):
-            if a_.h not in (_ZERO, None) and b_.lit and repo.const(fi_.module, bn_) not in (0, 0.0):
-                v_ = repo.const(fi_.module, bn_)
-                rep.fail("R-C01-9", fi_.file, node_.lineno, fi_.qualname, unparse(node_)[:100], anchor=f"{fi_.name}:degree-{a_.h}-vs-constant-{v_}", reason=
-                         f"the statistic is masked / replaced where a quantity scaling like k^{a_.h} with the spectrum falls below the constant {v_}: for "
-                         "such spectra the returned value is a fill value, not the defining integral (which does not depend on the energy level)")
-                break
-        else:
-            rep.ok("R-C01-9", f"{fi_.file}:{node_.lineno} {fi_.short}", unparse(node_)[:80], "scale-free guard", nontrivial=False)
+    from .shared import RATIO_STATS, scale_free_guards
+    scale_free_guards(repo, rep, "R-C01-9", T, RATIO_STATS + ("hs", "hrms", "mss", "uss", "uss_x", "uss_y"))
+    rep.rule("R-C01-11", "(shared with C09) statistics requested with band limits are computed on one split of the spectrum that receives all four "
+                         "limits, and each statistic is looked up on that split spectrum")
+    from .c09 import stats_dispatch
+    stats_dispatch(repo, rep, "R-C01-11")
     rep.rule("R-C01-10", "(shared with C05) label-level code never combines a bare ndarray taken out of a labelled array with labelled data, nor "
                          "applies a positional axis to it: the directional weights / bin widths meet the spectrum by dimension name")
     from .c05 import raw_positional
